@@ -335,6 +335,8 @@ class Html(base.Content):
     )
     for k, v in properties.items():
       if v is not None:
+        # Attribute values are data: quotes and markup shall not break out.
+        v = html_lib.escape(str(v), quote=False).replace('"', '&quot;')
         s.write(f' {k.replace("_", "-")}="{v}"')
     s.write('>')
 
